@@ -46,9 +46,8 @@ class RBFInterpolator(NNBase):
         super().__init__(training_points, training_values, num_leaves)
 
         if self._ntpts < num_neighbors:
-            self._raise('RBFInterpolator only given {0} training points, '
-                        'but requested num_neighbors={1}.'.format(self._ntpts, num_neighbors),
-                        exc_type=ValueError)
+            raise ValueError('RBFInterpolator only given {0} training points, '
+                             'but requested num_neighbors={1}.'.format(self._ntpts, num_neighbors))
 
         # rbf_family is an arbitrary value that picks a function to use
         self.rbf_family = rbf_family
@@ -247,7 +246,7 @@ class RBFInterpolator(NNBase):
             #                             (216. * T * T) + (120. * T * T * T) +
             #                             (25. * T * T * T * T)))
         elif self.rbf_family == -3:
-            frnt = T / np.sqrt((T * T) * 1.)
+            frnt = T / np.sqrt((T * T) + 1.)
             dRp_poly = [1.]
         else:
             dims = self._indep_dims + 1
@@ -260,7 +259,7 @@ class RBFInterpolator(NNBase):
                     # dRp = -1.
                 elif self.rbf_family == 1:
                     frnt = 1.
-                    dRp_poly = [1., -2., 1., 0.]
+                    dRp_poly = [-1., 2., -1., 0.]
                     # dRp = -T * (1. - T) * (1. - T)
                 elif self.rbf_family == 2:
                     frnt = np.power(1. - T, 4.) / -20.
@@ -375,7 +374,7 @@ class RBFInterpolator(NNBase):
         """
         if len(prediction_points.shape) == 1:
             # Reshape vector to n x 1 array
-            prediction_points.shape = (1, prediction_points.shape[0])
+            prediction_points = prediction_points.reshape(1, -1)
 
         normalized_pts = (prediction_points - self._tpm) / self._tpr
         nppts = normalized_pts.shape[0]
@@ -415,12 +414,12 @@ class RBFInterpolator(NNBase):
         """
         if len(prediction_points.shape) == 1:
             # Reshape vector to n x 1 array
-            prediction_points.shape = (1, prediction_points.shape[0])
+            prediction_points = prediction_points.reshape(1, -1)
 
         normalized_pts = (prediction_points - self._tpm) / self._tpr
         # Setup prediction points and find their radial neighbors
         if self._pt_cache is not None and \
-                np.allclose(self._pt_cache[0], normalized_pts):
+                np.array_equal(self._pt_cache[0], normalized_pts):
             pdist, ploc = self._pt_cache[1:]
         else:
             pdist, ploc = self._KData.query(normalized_pts, self.N)
